@@ -10,6 +10,10 @@ open Ezpz
 /-! ### C01 — a "satisfied" verdict means the geometry satisfies the constraint -/
 #check @C01.verdict_iff_residual
 #check @C01.listed_iff
+#check @C01.satisfiedAt_iff_residualV
+#check @C01.attempted_unlisted_residual_small
+#check @C01.distance_end_to_end                   -- one of 23 <kind>_end_to_end
+#check @C01.arcAngle_end_to_end
 #check @satisfied_distance
 #check @satisfied_pointArcCoincident
 #check @pointArc_outside_sweep_satisfied          -- known finding F14, machine-checked witness
@@ -29,9 +33,17 @@ open Ezpz
 #check @C03.priority_spec
 #check @C03.result_is_subset_solve
 #check @C03.report_positions
+#check @result_is_filtered_solve                   -- at the public solve of the filtered list
+#check @result_is_filtered_solve_fields
+#check @error_is_filtered_solve
 
 /-! ### C04 — least disturbance -/
-#check @C04.untouched_var_fixed
+#check @untouched_var_fixed'                        -- no request mentions j ⇒ returned at its guess
+#check @jacobianAll_no_column
+#check @unmentioned_variable_returned_at_guess      -- ℝ, exact solver, no further hypothesis
+#check @assembled_affine                            -- linear kinds: residual = A x − b, A constant
+#check @newtonStep_isStep
+#check @newtonLoop_result_contracts
 #check @GN.untouched_var_step_zero
 #check @GN.tikhonov_step
 #check @GN.nearest_least_squares
@@ -44,6 +56,8 @@ open Ezpz
 #check @dof_spec
 #check @GN.participates_iff
 #check @C05.analysis_of_returned_model
+#check @underconstrained_is_nullspace_participation
+#check @DofEntryEx.lastJac_is_before_last_step      -- which Jacobian is analysed after a step-size stop
 #check @C05.no_constraints_all_free
 
 /-! ### C06 — total, no panic, finite -/
@@ -54,6 +68,11 @@ open Ezpz
 /-! ### C07 — reports are addressed right -/
 #check @C07.unsatisfied_sorted_attempted
 #check @C07.warning_indices
+#check @C07.warning_indices_visited                 -- raised at a configuration this run visited
+#check @C07.failure_warning_indices
+#check @C07.failure_sizes_solve'
+#check @newtonLoop_warnings_eq
+#check @C07.finalValueArc_spec
 #check @C07.values_by_id_partial
 #check @C07.values_by_id_fails_when_permuted       -- known finding F5, witness
 
@@ -65,6 +84,10 @@ open Ezpz
 #check @C09.executor_total
 #check @C09.strict_guesses
 #check @C09.nothing_dropped
+#check @Text.strict_labels
+#check @Text.undeclared_rejected
+#check @Text.rejection_kinds
+#check @Text.buildVars_isOk_iff
 
 /-! ### C10 — deterministic, entry points agree -/
 #check @C10.level_order_independent
@@ -73,10 +96,17 @@ open Ezpz
 /-! ### C11 — a satisfied configuration is left untouched -/
 #check @C11.converged_guess_untouched
 #check @C11.resolve_is_identity
+#check @C11.resolve_untouched
+#check @C11.converged_guess_untouched_append
+#check @C11.converged_guess_untouched_real
 
 /-! ### C12 — order and numbering do not matter -/
 #check @solveWithPriority_perm
 #check @solveWithPriority_renumber
+#check @solveWithPriority_perm_withAnalysis
+#check @solveWithPriority_renumber_withAnalysis
+#check @dof_row_perm
+#check @dof_col_perm
 #check @GN.step_row_perm
 #check @GN.step_col_perm
 #check @renumbering_consistent
@@ -91,6 +121,10 @@ open Ezpz
 #check @C14.newton_cap_monotone
 #check @C14.solve_cap_monotone_partial             -- hypothesis excluded by known finding F11
 #check @C14.converged_within_tolerance
+#check @C14.solve_cap_monotone_single_level
+#check @C14.solve_cap_monotone_err
+#check @C14.cap_not_monotone_multi_level            -- known finding F11, witness over ℝ
+#check @C14.solve_within_tolerance
 
 /-! ### C15 — warnings are truthful -/
 #check @lint_fires_parallel
